@@ -120,7 +120,7 @@ Undelivered(h, d) ==
 App(p, h) ==
     LET s == snt1(h)  ok == h.out.ok IN
     CASE h.out.set /\ h.par.entry = "crash" -> p \in {"C09", "C10", "C19"}     \* the process died (panic in a goroutine of the code)
-      [] h.out.set /\ h.par.entry = "lab" -> (p = "C13" /\ h.par.bound_ms = 0 /\ ~h.par.srv /\ SubSeq(h.scen, 1, 4) = "C13/") \/ (p \in {"C12", "C02"} /\ Len(h.scen) > 4 /\ SubSeq(h.scen, 1, 4) = p \o "/") \/ (p = "C08" /\ h.par.bound_ms > 0) \/ (p = "C17" /\ h.par.skip) \/ (p = "C15" /\ h.par.srv)
+      [] h.out.set /\ h.par.entry = "lab" -> (p = "C13" /\ h.par.bound_ms = 0 /\ ~h.par.srv /\ SubSeq(h.scen, 1, 4) = "C13/") \/ (p \in {"C12", "C02", "C09"} /\ Len(h.scen) > 4 /\ SubSeq(h.scen, 1, 4) = p \o "/") \/ (p = "C08" /\ h.par.bound_ms > 0) \/ (p = "C17" /\ h.par.skip) \/ (p = "C15" /\ h.par.srv)
       [] h.out.set /\ h.par.entry = "doc" -> p \in {"C16", "C17", "C18"} \/ (p = "C08" /\ h.par.docin.bound_us > 0)
       [] h.out.set /\ h.par.entry = "docstress" -> p = "C16"
       [] h.out.set /\ h.par.entry = "pubfetch" -> p = "C15"
